@@ -102,7 +102,7 @@ def check(prop, tier, seed):
         jobs = [j for j in jobs if _re.search(os.environ['VF_ONLY'], j.name)]
     vfcore.RUN_TAG = prop
     for j in jobs:
-        j.loops = {k: vfcore.select_sections(v, prop) for k, v in j.loops.items()}
+        j.loops = {k: vfcore.select_sections(v, prop) for k, v in j.loops.items()}   # keys: (pattern, ordinal[, 'opt'])
     natives = []
     for m in mods.values():
         nc = getattr(getattr(m, 'mod', m), 'native_checks', None)
@@ -184,7 +184,7 @@ def check(prop, tier, seed):
                 undecided.append('job %s: vacuity canary %s is %s (must FAIL)' % (j.name, c, st))
         n_ob += job_ob; n_dis += job_dis
         fn_table.append({'job': j.name, 'function': r.get('entry_pretty'), 'obligations': job_ob, 'discharged': job_dis,
-                         'backend': r['backend'], 'solver_s': r['solver_s'], 'replaced_callees': len(r.get('replaced', [])),
+                         'backend': r['backend'], 'solver_s': r['solver_s'], 'replaced_callees': len(r.get('replaced', [])), 'summarised_callees': r.get('summarised', []),
                          'bounded': j.bounded})
         if j.bounded:
             bounded_parts.append({'job': j.name, 'bound': j.bounded})
@@ -198,7 +198,7 @@ def check(prop, tier, seed):
     for n in natives:
         exe = os.path.join(WORK, 'native', n['name'])
         os.makedirs(os.path.dirname(exe), exist_ok=True)
-        b = _sp.run(['g++', '-std=c++17', '-O2', '-I', vfcore.INCLUDE, os.path.join(VERIF, n['src']), '-o', exe], capture_output=True, text=True)
+        b = _sp.run(['g++', '-std=c++17', '-O2', '-I', vfcore.INCLUDE, '-I', os.path.join(VERIF, 'contracts'), os.path.join(VERIF, n['src']), '-o', exe], capture_output=True, text=True)
         if b.returncode != 0:
             undecided.append('native check %s does not build: %s' % (n['name'], b.stderr[-400:]))
             continue
@@ -211,13 +211,13 @@ def check(prop, tier, seed):
         native_results.append({'name': n['name'], 'bound': n['bound'], 'result': [l for l in out_.splitlines() if l.startswith('RESULT')][-1:] , 'exit': r_.returncode})
         bounded_parts.append({'job': n['name'], 'bound': n['bound']})
         if r_.returncode != 0:
-            bad = [l for l in out_.splitlines() if l.startswith('UNSOUND')]
+            bad = [l for l in out_.splitlines() if l.startswith(('UNSOUND', 'MISMATCH'))]
             kfs_ = [k for k in kfs if k.get('status', 'open') == 'open' and k['property'] == prop and k.get('job') == n['name']]
             if kfs_:
                 for k in kfs_:
                     print('KNOWN-FINDING: property=%s %s' % (prop, k.get('what')))
             else:
-                d_ = os.path.join(VERIF, 'replays'); os.makedirs(d_, exist_ok=True)
+                d_ = os.path.join(VERIF, 'replays') if not os.environ.get('VF_REPO') else os.path.join(WORK, 'replays'); os.makedirs(d_, exist_ok=True)
                 rp = os.path.join(d_, '%s__%s.json' % (prop, n['name']))
                 json.dump({'property': prop, 'job': n['name'], 'bound': n['bound'], 'failing_cases': bad[:20], 'output_tail': out_[-1500:],
                            'native_replay': {'reproduced': True, 'note': 'the failing cases were produced by running the real code natively'}}, open(rp, 'w'), indent=1)
